@@ -755,7 +755,9 @@ def run(tier, replay=None):
     except subprocess.TimeoutExpired:
         raise C.Infra("no-JIT monitor run timed out")
     if p.returncode != 0:
-        raise C.Infra("no-JIT monitor run failed: " + p.stderr[-800:])
+        # the monitored plain-Python run drives the implementation's own samplers: an exception there comes from the code under
+        # test (or from an interface this harness can no longer drive) - a broken correspondence, not a failure of the machinery
+        raise C.ProgramAbort("no-JIT monitor run failed: " + p.stderr[-800:])
     res = json.loads(p.stdout.strip().splitlines()[-1])
     for k in ("assemble", "calling", "pedigree", "swap"):
         for e in res[k]:
